@@ -49,7 +49,7 @@ func genResult(q *rpcCall, v int) {
 	q.abort = fmt.Errorf("work-aborted-%d", q.id)
 }
 
-func (w *world) setupRpcServer(n int) (func(int), func()) {
+func (w *world) setupRpcServer(n, hist int) (func(int), func()) {
 	t, r := w.r.Tape, w.r
 	def := drawTimeout(t)
 	methods := []string{"/svc/default"}
@@ -63,20 +63,22 @@ func (w *world) setupRpcServer(n int) (func(int), func()) {
 		confs = append(confs, zrpc.VerifMethodTimeoutConf{FullMethod: m, Timeout: d})
 	}
 	icpt := zrpc.VerifUnaryTimeoutInterceptor(def, confs...)
-	calls := make([]*rpcCall, n)
+	calls := make([]*rpcCall, n+hist)
 	var sample []string
-	for i := 0; i < n; i++ {
+	for i := 0; i < n+hist; i++ {
 		q := &rpcCall{method: methods[t.Intn(len(methods))]}
-		q.w, q.id, q.d = w, i, timeouts[q.method]
+		q.w, q.id, q.d, q.stuck = w, i, timeouts[q.method], i >= n
 		q.cl = genCaller(t, q.d)
-		if t.Chance(2, 3) {
+		if !q.stuck && t.Chance(2, 3) {
 			q.pre = time.Duration(t.Range(0, 1000)) * q.d / 1000
 		}
 		genResult(q, t.Intn(6))
-		q.wk = &work{w: w, id: i, script: genScript(t, i, scriptOpts{gate: true, observe: true, waitDone: true, maxSteps: 6, effective: q.cl.effective(q.d)})}
+		q.wk = &work{w: w, id: i, script: genScript(t, i, scriptOpts{stuck: q.stuck, gate: true, observe: true, waitDone: true, maxSteps: 6, effective: q.cl.effective(q.d)})}
 		w.works = append(w.works, q.wk)
 		calls[i] = q
-		sample = append(sample, fmt.Sprintf("call%d method=%s timeout=%v %v think=%v script=[%s] returns(resp=%v err=%v)", i, q.method, q.d, q.cl, q.pre, scriptString(q.wk.script), q.resp != nil, q.err))
+		if i < n+histSampled {
+			sample = append(sample, fmt.Sprintf("call%d history=%v method=%s timeout=%v %v think=%v script=[%s] returns(resp=%v err=%v)", i, q.stuck, q.method, q.d, q.cl, q.pre, scriptString(q.wk.script), q.resp != nil, q.err))
+		}
 	}
 	if r.Tracing() {
 		r.Logf("default timeout %v, method timeouts %v", def, confs)
@@ -84,7 +86,7 @@ func (w *world) setupRpcServer(n int) (func(int), func()) {
 			r.Logf("%s", s)
 		}
 	}
-	r.Sample(map[string]any{"component": "zrpc serverinterceptors.UnaryTimeoutInterceptor", "default_timeout": def.String(), "method_timeouts": len(confs), "calls": sample})
+	r.Sample(map[string]any{"component": "zrpc serverinterceptors.UnaryTimeoutInterceptor", "default_timeout": def.String(), "method_timeouts": len(confs), "history_calls": hist, "calls": sample})
 	run := func(i int) {
 		q := calls[i]
 		if q.pre > 0 {
@@ -113,6 +115,7 @@ func (w *world) setupRpcServer(n int) (func(int), func()) {
 		}()
 		q.tRet, q.returned = time.Now(), true
 		r.Ev("return", int64(q.id), int64(status.Code(err)))
+		q.noteReturn()
 		w.checkRpcServer(q, resp, err)
 	}
 	return run, func() {}
@@ -322,15 +325,15 @@ type fxCall struct {
 	withCtx bool
 }
 
-func (w *world) setupFx(n int) (func(int), func()) {
+func (w *world) setupFx(n, hist int) (func(int), func()) {
 	t, r := w.r.Tape, w.r
-	calls := make([]*fxCall, n)
+	calls := make([]*fxCall, n+hist)
 	var sample []string
-	for i := 0; i < n; i++ {
+	for i := 0; i < n+hist; i++ {
 		q := &fxCall{}
-		q.w, q.id, q.d = w, i, drawTimeout(t)
+		q.w, q.id, q.d, q.stuck = w, i, drawTimeout(t), i >= n
 		scale := q.d
-		exhausted := t.Chance(1, 8)
+		exhausted := !q.stuck && t.Chance(1, 8)
 		if exhausted {
 			// an exhausted budget (timeout computed as time.Until(deadline)): now+timeout is
 			// not in the future, the call has to return at once whatever the work does
@@ -339,24 +342,26 @@ func (w *world) setupFx(n int) (func(int), func()) {
 		}
 		q.cl = genCaller(t, scale)
 		q.withCtx = q.cl.dl > 0 || q.cl.cancelAt >= 0 || t.Bool()
-		if t.Chance(2, 3) {
+		if !q.stuck && t.Chance(2, 3) {
 			q.pre = time.Duration(t.Range(0, 1000)) * scale / 1000
 		}
 		if t.Chance(1, 3) {
 			q.err = fmt.Errorf("work-error-%d", i)
 		}
 		eff := q.cl.effective(scale)
-		q.wk = &work{w: w, id: i, script: genScript(t, i, scriptOpts{gate: true, maxSteps: 6, effective: eff})}
+		q.wk = &work{w: w, id: i, script: genScript(t, i, scriptOpts{stuck: q.stuck, gate: true, maxSteps: 6, effective: eff})}
 		w.works = append(w.works, q.wk)
 		calls[i] = q
-		sample = append(sample, fmt.Sprintf("call%d timeout=%v %v think=%v script=[%s] returns(%v)", i, q.d, q.cl, q.pre, scriptString(q.wk.script), q.err))
+		if i < n+histSampled {
+			sample = append(sample, fmt.Sprintf("call%d history=%v timeout=%v %v think=%v script=[%s] returns(%v)", i, q.stuck, q.d, q.cl, q.pre, scriptString(q.wk.script), q.err))
+		}
 	}
 	if r.Tracing() {
 		for _, s := range sample {
 			r.Logf("%s", s)
 		}
 	}
-	r.Sample(map[string]any{"component": "core/fx.DoWithTimeout", "calls": sample})
+	r.Sample(map[string]any{"component": "core/fx.DoWithTimeout", "history_calls": hist, "calls": sample})
 	run := func(i int) {
 		q := calls[i]
 		k := q.wk
@@ -384,6 +389,7 @@ func (w *world) setupFx(n int) (func(int), func()) {
 		}()
 		q.tRet, q.returned = time.Now(), true
 		r.Ev("return", int64(q.id))
+		q.noteReturn()
 		desc := fmt.Sprintf("call %d (timeout %v, %v, returned at t0+%v)", q.id, q.d, q.cl, q.tRet.Sub(q.t0))
 		q.checkReturnTime("fx/")
 		if q.wpanicked {
